@@ -279,4 +279,46 @@ example : ∃ e d, e ∈ demo.reg.evs ∧ e.kind ≠ .none ∧ d ∈ demo.reg.ev
     nsAllowed demo d.ns = false :=
   ⟨⟨[97, 98], .getter, 2, 2, true⟩, ⟨[97, 98], .getter, 2, 2, true⟩, by decide, by decide, by decide, rfl, rfl, by decide⟩
 
+/-! ## class extensions touch only the table of the extended class -/
+
+/-- **An extension writes into the table of the extended class only.**  Whatever `ClassDefExt` is applied
+    to class `c`, the look-up of every OTHER class — its parent, its siblings, its subclasses, whether or
+    not their own response lists are empty — is what it was: tables are per class, never shared. -/
+theorem C16_ext_other_classes_untouched (s : State) (c x : Nat) (ds : List Decl) {c' : Nat} (hc : c' ≠ c) (n : Nat) :
+    getResponse (applyExt s c x ds) c' n = getResponse s c' n := by
+  unfold applyExt
+  cases h : tget s.tables c with
+  | none => rfl
+  | some row => simp [getResponse, tget, hc]
+
+/-- … and in the extended class's own table only the slots of the extension's non-null responses change. -/
+theorem C16_ext_other_slots_untouched (s : State) (c x : Nat) (ds : List Decl) (n : Nat)
+    (hn : ∀ d ∈ ds, d.has = true → evNum s.reg d.ev ≠ n) :
+    getResponse (applyExt s c x ds) c n = getResponse s c n := by
+  unfold applyExt
+  cases h : tget s.tables c with
+  | none => simp
+  | some row =>
+    have := patchExt_get_other s.reg x ds 0 row n hn
+    simp [getResponse, tget, h, this.1, this.2]
+
+/-- the same for `InitClassDef` as written (whatever the list holds, only the class of its head is touched) -/
+theorem C16_initClassDef_other_classes_untouched (s : State) (x c : Nat) (ds : List Decl)
+    (rest : List (Nat × Nat × List Decl)) {c' : Nat} (hc : c' ≠ c) (n : Nat) :
+    getResponse (initClassDef s ((x, c, ds) :: rest)).1 c' n = getResponse s c' n := by
+  simp only [initClassDef]
+  generalize ((x, c, ds) :: rest) = l
+  induction l generalizing s with
+  | nil => rfl
+  | cons a t ih =>
+    simp only [List.foldl]
+    rw [ih, C16_ext_other_classes_untouched s c x ds hc]
+
+/-- non-vacuity on `demo` (class 2 extends class 1's hierarchy): an extension of class 2 with a handler for
+    event object 3 changes class 2's slot and leaves classes 1 and 3 alone -/
+example : getResponse (applyExt demo 2 1000001 [⟨3, true⟩]) 2 (evNum demo.reg 3) = some (1000001, 0) ∧
+    getResponse (applyExt demo 2 1000001 [⟨3, true⟩]) 1 (evNum demo.reg 3) = getResponse demo 1 (evNum demo.reg 3) ∧
+    getResponse (applyExt demo 2 1000001 [⟨3, true⟩]) 3 (evNum demo.reg 3) = getResponse demo 3 (evNum demo.reg 3) := by
+  decide
+
 end Morfuse.Dispatch
